@@ -857,6 +857,38 @@ func checkRelatedHistories(c *Ctx, fn *ssa.Function, listSide func(ssa.Value) st
 		return
 	}
 	c.Sites++
+	// the value of a captured variable of closure mc, as seen in the enclosing function
+	outer := func(mc *ssa.MakeClosure, v ssa.Value) ssa.Value {
+		for i := 0; i < 3; i++ {
+			ld, isLd := v.(*ssa.UnOp)
+			if !isLd || mc == nil {
+				return v
+			}
+			fv, isFV := ld.X.(*ssa.FreeVar)
+			if !isFV {
+				return v
+			}
+			cf, _ := mc.Fn.(*ssa.Function)
+			for k, f2 := range cf.FreeVars {
+				if f2 == fv && k < len(mc.Bindings) {
+					if al, isAl := mc.Bindings[k].(*ssa.Alloc); isAl {
+						for _, r := range *al.Referrers() {
+							if st, isSt := r.(*ssa.Store); isSt && st.Addr == ssa.Value(al) {
+								return st.Val
+							}
+						}
+						// the cell itself is the variable (e.g. a map made in place)
+						return al
+					}
+					return mc.Bindings[k]
+				}
+			}
+			return v
+		}
+		return v
+	}
+	var curMC *ssa.MakeClosure // non-nil while looking inside a closure of fn
+	scanFn := fn
 	// evidence edges
 	isEvidence := func(iff *ssa.If, edge int) bool {
 		cond := iff.Cond
@@ -876,14 +908,15 @@ func checkRelatedHistories(c *Ctx, fn *ssa.Function, listSide func(ssa.Value) st
 			if !isLk || !lk.CommaOk || x.Index != 1 {
 				return false
 			}
-			s1 := listSide(lk.Index)
+			s1 := listSide(outer(curMC, elemSource(lk.Index, curMC, outer)))
 			if s1 == "" || s1 == "?" {
 				return false
 			}
 			// keys put into the map come from the other list
+			lkMap := outer(curMC, lk.X)
 			for _, b := range fn.Blocks {
 				for _, ins := range b.Instrs {
-					if mu, isMU := ins.(*ssa.MapUpdate); isMU && sameMap(mu.Map, lk.X) {
+					if mu, isMU := ins.(*ssa.MapUpdate); isMU && (sameMap(mu.Map, lkMap) || sameCell(mu.Map, lkMap)) {
 						if s2 := listSide(mu.Key); s2 != "" && s2 != "?" && s2 != s1 {
 							return true
 						}
@@ -894,7 +927,7 @@ func checkRelatedHistories(c *Ctx, fn *ssa.Function, listSide func(ssa.Value) st
 			if x.Op != token.EQL {
 				return false
 			}
-			s1, s2 := listSide(x.X), listSide(x.Y)
+			s1, s2 := listSide(outer(curMC, elemSource(x.X, curMC, outer))), listSide(outer(curMC, elemSource(x.Y, curMC, outer)))
 			return s1 != "" && s2 != "" && s1 != "?" && s2 != "?" && s1 != s2
 		}
 		return false
@@ -908,6 +941,41 @@ func checkRelatedHistories(c *Ctx, fn *ssa.Function, listSide func(ssa.Value) st
 		switch x := v.(type) {
 		case *ssa.Const:
 			return x.Value != nil && x.Value.String() == "false"
+		case *ssa.Call:
+			// the flag is computed by a closure of fn (or a same-package helper without captured state):
+			// it returns true only on evidence edges
+			mc, isMC := x.Common().Value.(*ssa.MakeClosure)
+			if !isMC {
+				return false
+			}
+			cf, _ := mc.Fn.(*ssa.Function)
+			if cf == nil || len(cf.Blocks) == 0 {
+				return false
+			}
+			prevMC, prevFn := curMC, scanFn
+			curMC, scanFn = mc, cf
+			defer func() { curMC, scanFn = prevMC, prevFn }()
+			sawTrue := false
+			for _, r := range Returns(cf) {
+				k, isK := r.Results[0].(*ssa.Const)
+				if !isK || k.Value == nil {
+					return false
+				}
+				if k.Value.String() != "true" {
+					continue
+				}
+				sawTrue = true
+				ok := false
+				for _, cc := range controlConds(r.Block(), nil) {
+					if isEvidence(cc.If, cc.Edge) {
+						ok = true
+					}
+				}
+				if !ok {
+					return false
+				}
+			}
+			return sawTrue
 		case *ssa.Phi:
 			for i, e := range x.Edges {
 				if k, isK := e.(*ssa.Const); isK && k.Value != nil && k.Value.String() == "true" {
@@ -953,8 +1021,11 @@ func checkRelatedHistories(c *Ctx, fn *ssa.Function, listSide func(ssa.Value) st
 			}
 			break
 		}
-		if _, isPhi := cond.(*ssa.Phi); isPhi && edge == 0 && establishes(cond, map[ssa.Value]bool{}) {
-			guarded = true
+		switch cond.(type) {
+		case *ssa.Phi, *ssa.Call:
+			if edge == 0 && establishes(cond, map[ssa.Value]bool{}) {
+				guarded = true
+			}
 		}
 	}
 	c.Check(guarded, "R2.7", fname+":merge-commit-joins-related-histories", w.InstrPos(mw), "the merge commit is written only after a common commit of the two histories was found",
@@ -1063,4 +1134,43 @@ func membershipPred(f *ssa.Function) *memPred {
 		}
 	}
 	return out
+}
+
+// elemSource: for the element of a ranged slice, the slice ranged over (so that its origin can be
+// classified); other values are returned unchanged.
+func elemSource(v ssa.Value, mc *ssa.MakeClosure, outer func(*ssa.MakeClosure, ssa.Value) ssa.Value) ssa.Value {
+	if ld, ok := v.(*ssa.UnOp); ok {
+		if ia, ok := ld.X.(*ssa.IndexAddr); ok {
+			return ia.X
+		}
+	}
+	return v
+}
+
+// sameCell: a is a load of the alloc b (or both are loads of the same alloc).
+func sameCell(a, b ssa.Value) bool {
+	if ld, ok := a.(*ssa.UnOp); ok && ld.X == b {
+		return true
+	}
+	if ld, ok := b.(*ssa.UnOp); ok && ld.X == a {
+		return true
+	}
+	// a is a load of a cell into which b was stored (or the reverse)
+	storedIn := func(load, v ssa.Value) bool {
+		ld, ok := load.(*ssa.UnOp)
+		if !ok {
+			return false
+		}
+		al, ok := ld.X.(*ssa.Alloc)
+		if !ok {
+			return false
+		}
+		for _, r := range *al.Referrers() {
+			if st, ok := r.(*ssa.Store); ok && st.Addr == ssa.Value(al) && st.Val == v {
+				return true
+			}
+		}
+		return false
+	}
+	return storedIn(a, b) || storedIn(b, a)
 }
